@@ -151,7 +151,7 @@ Aux:
 			case AmpAllowOtherKeys:
 				// ignore
 			default:
-				if !ss.Bound(Symbol(ad.Name)) {
+				if !ss.boundHere(ad.Name) {
 					ss.Let(Symbol(ad.Name), ss.Eval(ad.Default, depth+1))
 				}
 			}
@@ -164,7 +164,7 @@ Aux:
 			case AmpAllowOtherKeys:
 				// ignore
 			default:
-				if !ss.Bound(Symbol(ad.Name)) {
+				if !ss.boundHere(ad.Name) {
 					ss.Let(Symbol(ad.Name), ss.Eval(ad.Default, depth+1))
 				}
 			}
@@ -172,7 +172,7 @@ Aux:
 			asym := Symbol(ad.Name)
 			if AmpAux == asym {
 				mode = auxMode
-			} else if !ss.Bound(asym) {
+			} else if !ss.boundHere(ad.Name) {
 				ss.Let(asym, ss.Eval(ad.Default, depth+1))
 			}
 		case auxMode:
